@@ -182,6 +182,18 @@ func renderCase(id int, cs CaseSpec) (files map[string]string, source string) {
 		files[source] = head(dir, pkgPath+"/sub") + "type Kind string\n\nconst (\n\tKa Kind = \"a\"\n\tKb Kind = \"b\"\n)\n\ntype Item struct {\n\tK  Kind\n\tSK sub.Kind\n\tSI sub.Item\n}\n"
 	case "keyword":
 		files[source] = head(dir) + "type Type struct {\n\tClass   string `json:\"class\"`\n\tDefault int    `json:\"default\"`\n\tFinal   bool   `json:\"final-flag\"`\n}\n\ntype Function int\n\nconst (\n\tNull Function = iota\n\tVoid\n)\n\ntype H struct {\n\tId int64\n\tT  Type\n\tF  Function\n}\n"
+	case "selfslice":
+		files[source] = head(dir) + "type Tree []Tree\n\ntype H struct {\n\tId int64\n\tT  Tree\n}\n"
+	case "selfmap":
+		files[source] = head(dir) + "type Dir map[string]Dir\n\ntype Grid [2]Cell\n\ntype Cell struct{ Sub []Grid }\n\ntype H struct {\n\tId int64\n\tD  Dir\n\tG  Grid\n}\n"
+	case "unionlistmember":
+		files[source] = head(dir) + "type Expr interface{ isExpr() }\n\ntype List []Expr\n\nfunc (List) isExpr() {}\n\ntype Lit struct{ V int }\n\nfunc (Lit) isExpr() {}\n\ntype Env map[string]Expr\n\nfunc (Env) isExpr() {}\n\ntype H struct {\n\tId int64\n\tE  Expr\n}\n"
+	case "mutualnamed":
+		files[source] = head(dir) + "type A []B\n\ntype B map[string]A\n\ntype C B\n\ntype H struct {\n\tId int64\n\tX  A\n\tY  C\n}\n"
+	case "aliaschain":
+		files[source] = head(dir) + "type Meters int\n\ntype Distance = Meters\n\ntype Length = Distance\n\ntype P struct{ X int }\n\ntype Q = P\n\ntype R = Q\n\ntype H struct {\n\tId int64\n\tL  Length\n\tLs []Length\n\tR  R\n\tM  map[string]R\n}\n"
+	case "promotedmember":
+		files[source] = head(dir) + "type Shape interface{ isShape() }\n\ntype Base struct{ N int }\n\nfunc (Base) isShape() {}\n\ntype Circle struct {\n\tBase\n\tR float64\n}\n\ntype H struct {\n\tId int64\n\tS  Shape\n}\n"
 	default:
 		panic("unknown spelling " + cs.Form)
 	}
